@@ -402,6 +402,13 @@ theorem join_log_names_distinct
       rw [hc] at hxy
       exact hpf b j nl.1 c (by omega) hxy
 
+/-- **Distinct names, unconditionally**: for the prefixes dclab really writes
+(`src-#<i>_`, `srcPrefix_prefix_free`) the hypothesis `hpf` is a theorem. -/
+theorem join_log_names_distinct_concrete
+    (ms : List Meas) (hnd : ∀ m ∈ ms, (m.logs.map (·.1)).Nodup) :
+    ∀ b, ((joinLogsFrom b ms).map (·.1)).Nodup :=
+  join_log_names_distinct srcPrefix_prefix_free ms hnd
+
 /-! ### non-vacuity -/
 
 /-- two inputs: `a` taken at 12:00:00, `b` at 12:00:00.5 -/
